@@ -135,7 +135,102 @@ def c_flags(t, w, sh, vs):
     return hx(c.composed_bytes)
 
 
+_FAC = {}
+
+
+def factories():
+    if not _FAC:
+        from harness import gen_tables
+        _FAC['f'] = gen_tables.enum_factories()
+        _FAC['v'] = gen_tables.enum_vectors()
+    return _FAC
+
+
+def show_eitem(it, enum_members):
+    from cryptoparser.tls.grease import TlsInvalidTypeBase, TlsInvalidType
+    from cryptoparser.tls.version import TlsProtocolVersion
+    if isinstance(it, TlsInvalidTypeBase):
+        return ('G' if it.value.value_type == TlsInvalidType.GREASE else 'U') + str(it.value.code)
+    if isinstance(it, TlsProtocolVersion):
+        it = it.version
+    return 'K%d' % enum_members.index(it)
+
+
+def p_enum(t, h):
+    cls, w, e = factories()['f'][t]
+    obj, n = cls.parse_immutable(bytes.fromhex(h))
+    return '%d n=%d' % (list(e).index(obj), n)
+
+
+def c_enum(t, i):
+    from cryptoparser.common.parse import ComposerBinary as CB
+    cls, w, e = factories()['f'][t]
+    members = list(e)
+    if int(i) >= len(members):
+        raise IndexError(i)
+    m = members[int(i)]
+    if hasattr(m, 'compose'):
+        return hx(m.compose())
+    c = CB()
+    c.compose_numeric_enum_coded(m)
+    return hx(c.composed_bytes)
+
+
+def p_inv(g, h):
+    from cryptoparser.tls.grease import TlsInvalidTypeOneByte, TlsInvalidTypeTwoByte
+    cls = TlsInvalidTypeOneByte if g == '1' else TlsInvalidTypeTwoByte
+    obj, n = cls.parse_immutable(bytes.fromhex(h))
+    return '%s n=%d' % (show_eitem(obj, []), n)
+
+
+def p_evec(v, h):
+    d = factories()['v'][v]
+    members = list(factories()['f'][d['factory']][2])
+    obj, n = d['cls'].parse_immutable(bytes.fromhex(h))
+    return '[' + ','.join(show_eitem(it, members) for it in obj) + '] n=%d' % n
+
+
+def mk_eitems(d, its):
+    from cryptoparser.tls.grease import TlsInvalidTypeOneByte, TlsInvalidTypeTwoByte
+    from cryptoparser.tls.version import TlsProtocolVersion
+    members = list(factories()['f'][d['factory']][2])
+    inv = TlsInvalidTypeOneByte if d['w'] == 1 else TlsInvalidTypeTwoByte
+    items = []
+    for s in ([] if its == '-' else its.split(',')):
+        if s[0] == 'K':
+            m = members[int(s[1:])]
+            items.append(TlsProtocolVersion(m) if d['item_is_version'] else m)
+        else:
+            items.append(inv(int(s[1:])))
+    return items
+
+
+def c_evec(v, its):
+    d = factories()['v'][v]
+    return hx(d['cls'](mk_eitems(d, its)).compose())
+
+
+def p_opq(t, h):
+    from harness import gen_tables
+    d = gen_tables.opaque_enum_factories()[t]
+    obj, n = d['cls'].parse_immutable(bytes.fromhex(h))
+    return '%d n=%d' % (list(d['enum']).index(obj), n)
+
+
+def c_opq(t, i):
+    from harness import gen_tables
+    d = gen_tables.opaque_enum_factories()[t]
+    members = list(d['enum'])
+    if int(i) >= len(members):
+        raise IndexError(i)
+    c = ComposerBinary()
+    c.compose_string_enum_coded(members[int(i)], d['num'])  # what VectorEnumCodeString.compose does per item
+    return hx(c.composed_bytes)
+
+
 COMMANDS = {
+    'popq': p_opq, 'copq': c_opq,
+    'penum': p_enum, 'cenum': c_enum, 'pinv': p_inv, 'pevec': p_evec, 'cevec': c_evec,
     'cts': c_ts, 'pts': p_ts, 'pflags': p_flags, 'cflags': c_flags,
     'cnum': c_num, 'pnum': p_num, 'cmpint': c_mpint, 'pmpint': p_mpint, 'csshmpint': c_sshmpint, 'psshmpint': p_sshmpint,
 }
